@@ -89,7 +89,18 @@ def int_like(e):
 def normalized(rankings):
     """what the dataset is documented to hold: ints when every name is integer-like, else strings"""
     all_int = all(int_like(e) for r in rankings for b in r for e in b)
-    return [[[normalize_name(e, all_int) for e in b] for b in r] for r in rankings]
+    out = []
+    for r in rankings:
+        rr = []
+        for b in r:
+            bb = []
+            for e in b:
+                v = normalize_name(e, all_int)
+                if v not in bb:          # two spellings of one integer ("7", "007", 7) are one element
+                    bb.append(v)
+            rr.append(bb)
+        out.append(rr)
+    return out
 
 
 @contextlib.contextmanager
